@@ -2,6 +2,9 @@ import Hgxv.Model.C11
 import Hgxv.Proofs.C11Classes
 import Hgxv.Proofs.C11EsuRoot
 import Hgxv.Proofs.C11Census
+import Hgxv.Proofs.C11Dir
+import Hgxv.Proofs.C11Relabel
+import Hgxv.Proofs.C11Cut
 /-! # C11 - motif census equals exhaustive enumeration and is relabelling-invariant
 
 Property theorems about the models `Hgxv/Model/C11Tables.lean` (pattern tables of
@@ -141,6 +144,18 @@ theorem C11_census (n : Nat) (hn : n = 3 ∨ n = 4) (E : HG) (hE : WF E) :
               decide (Conn E S ∧ ∃ t ∈ tbls n, applyPerm t c = pattern n E S)).length) :=
   census_spec hn hE
 
+/-- no connected subset is lost: the labelled pattern of a connected `n`-set is connected in the sense of
+`_is_connected`, hence (by `C11_classes`) a relabelling of exactly one class, under which `C11_census`
+counts it -/
+theorem C11_connected_classified (n : Nat) (hn : n = 3 ∨ n = 4) (E : HG) (hE : WF E) (S : List Nat)
+    (hS : SSorted S) (hlen : S.length = n) (hc : Conn E S) :
+    connected n (masks n) (pattern n E S) = true ∧
+    ∃ c ∈ classes n, ∃ t ∈ tbls n, applyPerm t c = pattern n E S := by
+  have C := certFor hn
+  have hne := conn_pattern hn hE hS hlen hc
+  have hlt := pattern_lt E hlen
+  exact ⟨(C.conn _ hlt).mpr hne, cidFor n (pattern n E S), cid_mem_classes C hlt hne, C.ofRep _ hlt hne⟩
+
 /-- non-vacuity: a hyperedge of size 3 with two of its pairs, plus a triangle and a path of pairs -/
 example : WF [[0,1],[1,2],[0,1,2],[2,3],[1,3]] := ⟨by decide, by decide⟩
 example : census 3 [[0,1],[1,2],[0,1,2],[2,3],[1,3]] = [(1, 0), (3, 0), (6, 1), (7, 1), (14, 1), (15, 0)] := by
@@ -162,7 +177,58 @@ theorem C11_insertion_order_invariant (n : Nat) (hn : n = 3 ∨ n = 4) (E E' : H
   intro c _
   rw [specCount_congr (fun e => hperm.mem_iff) c]
 
+/-- the census does not depend on the node labels: renaming the nodes by any injective map `π`
+(`relabelHG π E`: every hyperedge mapped and re-sorted, as `Hypergraph.add_edge` stores it) gives the same
+count for every class, in the same order -/
+theorem C11_relabel_invariant (n : Nat) (hn : n = 3 ∨ n = 4) (E : HG) (hE : WF E) (π : Nat → Nat)
+    (hπ : ∀ a b, π a = π b → a = b) : census n (relabelHG π E) = census n E :=
+  census_relabel hπ hn hE
+
+/-- non-vacuity: a renaming that reverses the order of the labels -/
+example : relabelHG (fun x => 10 - x) [[0,1],[1,2],[0,1,2],[2,3],[1,3]] = [[9,10],[8,9],[8,9,10],[7,8],[7,9]] := by
+  decide
+
 /-- hyperedges with more than `n` nodes are ignored -/
 theorem C11_ignores_large (n : Nat) (E : HG) : census n E = census n (E.filter (·.length ≤ n)) := by
   show censusWith _ _ _ n E = censusWith _ _ _ n (upTo n E)
   unfold censusWith; rw [upTo_idem]
+
+/-! ## directed census
+
+Patterns are sorted lists of directed hyperedges over the ranks `1..n`; `drelabel p` relabels by the
+permutation `p` of `0..n-1` (and re-sorts), `dpatLe` is Python's order on tuples of tuples, which is a
+total order (`Proofs/C11DirOrder.lean`), so "minimum" determines the pattern. -/
+
+/-- every pattern reported by `compute_directed_motifs` is the least of all its relabellings, i.e. the
+canonical representative of its isomorphism class; and no pattern is reported twice -/
+theorem C11_dir_canonical (n : Nat) (hn : n = 3 ∨ n = 4) (E : DHG) :
+    ((dirCensus n E).map (·.1)).Nodup ∧
+    ∀ kc ∈ dirCensus n E, ∀ p ∈ perms (List.range n), dpatLe kc.1 (drelabel p kc.1) = true := by
+  refine ⟨dirCensus_keys_nodup n E, ?_⟩
+  intro kc h p hp
+  obtain ⟨S, hlen, hk⟩ := dirCensus_key h
+  rw [hk]
+  exact dcanon_min hn _ (dpattern_wf _ hlen) p hp
+
+/-- The representative depends only on the isomorphism type of the labelled pattern: relabelling the
+pattern (all nodes are ranks `1..n`) does not change its canonical form.
+
+Full statement aimed at (NOT proved here, exercised by the correspondence check only):
+`dirCensus n (E.map (relabelD π))` is a permutation of `dirCensus n E` for every injective `π`.
+Missing link: the labelled pattern of the relabelled node set is `drelabel p` of the original one
+(with `p` the permutation that sorts the images). -/
+theorem C11_dir_iso_invariant_partial (n : Nat) (hn : n = 3 ∨ n = 4) (pat : List DEdge) (hw : WFPat n pat)
+    (p : List Nat) (hp : p ∈ perms (List.range n)) : dcanon n (drelabel p pat) = dcanon n pat :=
+  dcanon_relabel hn pat hw p hp
+
+/-- directed hyperedges with more than `n` nodes are ignored -/
+theorem C11_dir_ignores_large (n : Nat) (E : DHG) :
+    dirCensus n E = dirCensus n (E.filter (dsize · ≤ n)) := by
+  have : dUpTo n (dUpTo n E) = dUpTo n E := by unfold dUpTo; rw [List.filter_filter]; simp
+  show dirCensus n E = dirCensus n (dUpTo n E)
+  unfold dirCensus; simp only [this]
+
+example : dirCensus 3 [([0],[1,2]), ([0,1],[2]), ([3],[0,1,2,4])] = [([([1],[2,3]), ([1,2],[3])], 1)] := by decide
+example : dcanon 3 [([2],[1,3]), ([1,2],[3])] = [([1],[2,3]), ([1,2],[3])] := by decide
+example : WFPat 3 [([2],[1,3]), ([1,2],[3])] := by
+  intro e he; simp at he; rcases he with rfl | rfl <;> simp
